@@ -46,6 +46,21 @@ CHECKS = {
    "For 62 types x all columns (len <= 2) x layouts (<= 1 deviation): every mutilation of a type-agnostic menu (len/offset +-1 and overflowing, buffer dropped/added/truncated by a byte or an element/misaligned, validity short/forbidden/wrong null_count, child dropped/added/retyped/shortened/lengthened, every cell of every offsets/sizes/keys/type-id/view/value buffer of the array and its children overwritten by each of 8 replacement values) is fed to ArrayData::try_new, ArrayDataBuilder::build (with and without align_buffers) and new_unchecked+validate_full; whatever is accepted must pass vmodel::spec_validate; RecordBatch::try_new(_with_options) trials.",
    "Trusted: vmodel::spec_validate (it is never stricter than arrow-rs documents: arbitrary payload under nulls for dictionary keys, empty offsets for empty arrays). Only single mutilations; typed try_new constructors and the C Data Interface import path are not driven yet.",
    "DESIGN.md section 4, C09"),
+ "C10": ("vk-ord", "exploration",
+   "bounded exhaustive enumeration of (type, column, layout, SortOptions, limit, column tuple) against a model order on logical values: comparator laws, sort/lexsort/rank/partition and the eight comparison kernels in every Datum form",
+   "64 (99) sortable types incl. dictionary, run-end, views, decimals, intervals, nested list/struct/map x all columns of length <= 4 over alphabets with NaNs of both signs and payloads, +-0, nulls, duplicates x 5 layouts (compact, sliced, garbage under nulls, alternative encodings) x 4 SortOptions x limits 0..=len+1; tuples of <= 3 columns with independent options; all pairs of columns (len <= 3) for eq/neq/lt/lt_eq/gt/gt_eq/distinct/not_distinct in array/array, array/scalar, scalar/array, scalar/scalar forms; long families to 1025 rows for the non-comparison fast paths. Oracle: comparator reflexive/antisymmetric/transitive, equal to the model order (IEEE totalOrder), Equal iff ==; sort_to_indices a permutation sorted under the comparator (prefix under a limit); lexsort for the tuple order; rank / partition as documented; kernels per row = comparator with documented null handling. 262 M evaluations quick, 3.1 G thorough.",
+   "Trusted: the model order on the engine's value model. arrow_ord::comparison (doc-hidden) is not driven.",
+   "DESIGN.md section 4, C10; engine/vk-ord/STATUS.md"),
+ "C11": ("vk-ord", "exploration",
+   "bounded exhaustive enumeration of (field types, SortOptions, values incl. every variable length around the 8/32-byte block edges with sentinel bytes, conversion path) with all pairs of produced rows compared against the model tuple order",
+   "77 (109) field types x 4 SortOptions, tuples of <= 2 (3) fields, variable-length values of every length in {0,1,7,8,9,31,32,33,63,64,65} over bytes {00,01,02,03,FE,FF} directly and through seven wrapper types, nested values with nulls at every level, dictionaries and run-end inputs, columns of length <= 3, compact and sliced layouts; rows produced by one conversion, by append, and by a second conversion with the same converter, compared across all pairs. Oracle: byte order == model tuple order (cross-checked with make_comparator), byte-equal iff logically equal, convert_rows of every selection == take of the inputs (hydrated), Rows<->binary round trip, RowParser, OwnedRow. 171 M evaluations quick, 1.6 G thorough.",
+   "Trusted: the model order; documented caveats (map entry order, union per-branch nulls, dictionary hydration) are encoded in the model.",
+   "DESIGN.md section 4, C11; engine/vk-ord/STATUS.md"),
+ "C20": ("vk-string", "exploration",
+   "exhaustive enumeration of every LIKE pattern of length <= 4 (5) x every haystack of length <= 3 over Unicode-mixing alphabets x operators x scalar/array forms x encodings, against a naive character-level matcher; needle predicates, regexes, substrings and concatenation likewise",
+   "7,381 (66,430) patterns over {% _ \\ a A k e-acute . newline} x 6,175 haystacks over 18 scalar values (ASCII, multi-byte, combining, case-varying incl. KELVIN SIGN, regex metacharacters, the wildcards themselves) x like/ilike/nlike/nilike x scalar and array patterns (runs, nulls, cache-exercising repeats) x Utf8 / LargeUtf8 / Utf8View (inline and buffer-backed) / Dictionary with layouts (sliced, nulls over hidden bytes, permuted/unused/null dictionary values); starts_with / ends_with / contains for all needle x haystack pairs incl. binary types; every compiling regex of length <= 4 (5) over {a . * ^ $ ( ) | e-acute} with flags none/i against the regex crate; substring and substring_by_char for all (start, length) in -5..=5 x {None, 0..=5}; length, bit_length, every concat_elements variant. 3.25 G kernel rows quick, 33 G thorough.",
+   "Trusted: the naive backtracking matcher on chars and a precomputed single-character case-folding table taken from the regex engine (the property's own definition). Regex semantics are the regex crate's.",
+   "DESIGN.md section 4, C20; engine/vk-string/STATUS.md"),
  "C12": ("vk-arith", "exploration",
    "exhaustive enumeration of all 8-bit operand pairs (and 16-bit values against a boundary set; full 16x16 in thorough), boundary lattices for wider integers / decimals / i256 / temporal types, all null patterns and aggregate lengths around lane sizes, all Kleene inputs, against an exact big-integer reference",
    "All 65,536 operand pairs for Int8/UInt8 x {add, sub, mul, div, rem, wrapping forms, neg, bitwise, shifts} x {array-array, array-scalar, scalar-array}; all 16-bit values x a 40-value boundary set both ways (thorough: the full 16x16 square for add/sub/mul, 45.5 G evaluations); boundary lattice BxB for 32/64-bit ints, Decimal32/64/128/256 over a precision/scale grid incl. negative and extreme scales, i256 and interval types directly, timestamp/date/duration/interval arithmetic against an own Gregorian model; null patterns {valid,null}^n with overflow-provoking garbage under nulls, sliced inputs; aggregates for every length in {0,1,7,8,9,63,64,65,127,128,129,257} with a poison value at every position of the first and last lane group; Kleene and/or/not on all {T,F,N}^n pairs at bit offsets 0..=9. Every pair's outcome is individually determined (packed Ok calls plus one-row calls).",
